@@ -26,14 +26,8 @@ func smtFloatBits(f float64) uint64 { return math.Float64bits(f) }
 
 // bridged is the table of host functions callable through the generic bridge.
 var bridged = map[string]interface{}{
-	"strconv.Itoa":        strconv.Itoa,
-	"strconv.Atoi":        strconv.Atoi,
-	"strconv.FormatInt":   strconv.FormatInt,
 	"strconv.FormatUint":  strconv.FormatUint,
 	"strconv.FormatBool":  strconv.FormatBool,
-	"strconv.FormatFloat": strconv.FormatFloat,
-	"strconv.ParseFloat":  strconv.ParseFloat,
-	"strconv.ParseInt":    strconv.ParseInt,
 	"strconv.ParseUint":   strconv.ParseUint,
 	"strconv.ParseBool":   strconv.ParseBool,
 	"strconv.Quote":       strconv.Quote,
@@ -316,8 +310,11 @@ func (i *interpreter) callNative(fr *frame, fn *ssa.Function, name string, args 
 		return nil, false
 	}
 	if m, ok := models[name]; ok {
-		i.noteStub(name)
-		return m(i, fr, args), true
+		r := m(i, fr, args)
+		if _, no := r.(notHandled); !no {
+			i.noteStub(name)
+			return r, true
+		}
 	}
 	if (pp == "fmt" || pp == "log" || pp == "os") && fn.Signature.Recv() == nil {
 		i.noteStub(name)
@@ -487,6 +484,35 @@ func init() {
 			x, y := a[0].(iface), a[1].(iface)
 			return x.t != nil && sameType(x.t, y.t) && !hasSym(x.v) && !hasSym(y.v) && equals(x.t, x.v, y.v)
 		},
+		"(*encoding/csv.Writer).Write": func(i *interpreter, fr *frame, a []value) value {
+			if !i.ps.csvModel {
+				return notHandled{}
+			}
+			rec := append([]value{}, a[1].([]value)...)
+			i.ps.csvRecords = append(i.ps.csvRecords, rec)
+			return iface{}
+		},
+		"(*encoding/csv.Writer).Flush": func(i *interpreter, fr *frame, a []value) value {
+			if !i.ps.csvModel {
+				return notHandled{}
+			}
+			return nil
+		},
+		"(*encoding/csv.Writer).Error": func(i *interpreter, fr *frame, a []value) value {
+			if !i.ps.csvModel {
+				return notHandled{}
+			}
+			return iface{}
+		},
+		"internal/abi.NoEscape": func(i *interpreter, fr *frame, a []value) value { return a[0] },
+		"internal/bytealg.MakeNoZero": func(i *interpreter, fr *frame, a []value) value {
+			n := i.concInt(a[0])
+			out := make([]value, n)
+			for k := range out {
+				out[k] = uint8(0)
+			}
+			return out
+		},
 		"sync.(*Mutex).Lock":   func(i *interpreter, fr *frame, a []value) value { return nil },
 		"sync.(*Mutex).Unlock": func(i *interpreter, fr *frame, a []value) value { return nil },
 		"sync.(*RWMutex).Lock":    func(i *interpreter, fr *frame, a []value) value { return nil },
@@ -494,16 +520,45 @@ func init() {
 		"sync.(*RWMutex).RLock":   func(i *interpreter, fr *frame, a []value) value { return nil },
 		"sync.(*RWMutex).RUnlock": func(i *interpreter, fr *frame, a []value) value { return nil },
 		"strconv.AppendInt": func(i *interpreter, fr *frame, a []value) value {
-			s := strconv.FormatInt(i.concInt(a[1]), int(i.concInt(a[2])))
-			return i.appendValues(a[0].([]value), strBytes(s), types.Typ[types.Byte])
+			return i.appendValues(a[0].([]value), strBytes(i.fmtInt(a[1], a[2])), types.Typ[types.Byte])
+		},
+		"strconv.FormatInt": func(i *interpreter, fr *frame, a []value) value { return i.fmtInt(a[0], a[1]) },
+		"strconv.Itoa":      func(i *interpreter, fr *frame, a []value) value { return i.fmtInt(a[0], 10) },
+		"strconv.FormatFloat": func(i *interpreter, fr *frame, a []value) value {
+			return i.fmtFloat(a[0], a[1], a[2], a[3])
+		},
+		"github.com/tobgu/qframe/internal/ryu.AppendFloat64f": func(i *interpreter, fr *frame, a []value) value {
+			if !isSym(a[1]) || i.ps.realDigits {
+				return notHandled{}
+			}
+			return i.appendValues(a[0].([]value), strBytes(i.fmtFloat(a[1], uint8('f'), -1, 64)), types.Typ[types.Byte])
+		},
+		"strconv.Atoi": func(i *interpreter, fr *frame, a []value) value {
+			v, err := i.parseIntModel(a[0])
+			return tuple{v, err}
+		},
+		"strconv.ParseInt": func(i *interpreter, fr *frame, a []value) value {
+			if deepConcrete(a[0]) {
+				return i.bridge(strconv.ParseInt, a)
+			}
+			v, err := i.parseIntModel(a[0])
+			if s, ok := v.(*Sym); ok {
+				v = &Sym{T: s.T, K: types.Int64}
+			} else {
+				v = int64(v.(int))
+			}
+			return tuple{v, err}
+		},
+		"strconv.ParseFloat": func(i *interpreter, fr *frame, a []value) value {
+			v, err := i.parseFloatModel(a[0], a[1])
+			return tuple{v, err}
 		},
 		"strconv.AppendBool": func(i *interpreter, fr *frame, a []value) value {
 			s := strconv.FormatBool(i.concValue(a[1]).(bool))
 			return i.appendValues(a[0].([]value), strBytes(s), types.Typ[types.Byte])
 		},
 		"strconv.AppendFloat": func(i *interpreter, fr *frame, a []value) value {
-			s := strconv.FormatFloat(i.concValue(a[1]).(float64), i.concValue(a[2]).(uint8), int(i.concInt(a[3])), int(i.concInt(a[4])))
-			return i.appendValues(a[0].([]value), strBytes(s), types.Typ[types.Byte])
+			return i.appendValues(a[0].([]value), strBytes(i.fmtFloat(a[1], a[2], a[3], a[4])), types.Typ[types.Byte])
 		},
 		"strconv.AppendQuote": func(i *interpreter, fr *frame, a []value) value {
 			s := strconv.Quote(i.concString(a[1]))
@@ -720,4 +775,94 @@ func wordOfBytes(bs []*smt.Term) *smt.Term {
 		}
 	}
 	return w
+}
+
+type notHandled struct{}
+
+// ---- number text model (DESIGN 3.4) ---------------------------------------
+// A symbolic number is rendered as a fixed-width injective text: one tag byte
+// ('i' for integers, 'f' for floats) followed by 16 letters 'a'..'p', one per
+// nibble (most significant first). The parse functions invert exactly that and
+// reject every other symbolic text. Concrete operands use the real strconv.
+
+func (i *interpreter) nibbleText(tag byte, t *smt.Term) value {
+	b := i.tb
+	out := make([]value, 17)
+	out[0] = tag
+	for k := 0; k < 16; k++ {
+		nib := b.Extract(t, 63-4*k, 60-4*k)
+		out[k+1] = i.mk(b.BVBin(smt.OAdd, b.ZExt(nib, 8), b.BVConst('a', 8)), types.Uint8)
+	}
+	return mkStr(out)
+}
+
+func (i *interpreter) fmtInt(x, base value) value {
+	if s, ok := x.(*Sym); ok {
+		i.noteStub("number-text-model(int)")
+		return i.nibbleText('i', i.tb.SExt(s.T, 64))
+	}
+	return strconv.FormatInt(asInt64(x), int(i.concInt(base)))
+}
+
+func (i *interpreter) fmtFloat(x, f, prec, bits value) value {
+	if s, ok := x.(*Sym); ok {
+		i.noteStub("number-text-model(float)")
+		return i.nibbleText('f', i.floatBitsTerm(s.T))
+	}
+	return strconv.FormatFloat(x.(float64), i.concValue(f).(uint8), int(i.concInt(prec)), int(i.concInt(bits)))
+}
+
+// parseModel recognises tag + 16 nibble letters; returns the 64-bit term and a
+// condition under which the text is well-formed.
+func (i *interpreter) parseModel(tag byte, s value) (*smt.Term, *smt.Term) {
+	b := i.tb
+	bs := strBytes(s)
+	if len(bs) != 17 {
+		return nil, b.False
+	}
+	ok := b.Eq(i.lift(bs[0]), b.BVConst(uint64(tag), 8))
+	var w *smt.Term
+	for k := 1; k < 17; k++ {
+		c := i.lift(bs[k])
+		ok = b.And(ok, b.BVCmp(smt.OULE, b.BVConst('a', 8), c), b.BVCmp(smt.OULE, c, b.BVConst('p', 8)))
+		nib := b.Extract(b.BVBin(smt.OSub, c, b.BVConst('a', 8)), 3, 0)
+		if w == nil {
+			w = nib
+		} else {
+			w = b.Concat(w, nib)
+		}
+	}
+	return w, ok
+}
+
+func (i *interpreter) parseIntModel(s value) (value, value) {
+	if deepConcrete(s) {
+		v, err := strconv.Atoi(i.concString(s))
+		if err != nil {
+			return v, iface{errorType, err.Error()}
+		}
+		return v, iface{}
+	}
+	i.noteStub("number-text-model(parse int)")
+	w, ok := i.parseModel('i', s)
+	if w != nil && i.branch(ok) {
+		return i.mk(w, types.Int), iface{}
+	}
+	return 0, iface{errorType, "strconv.Atoi: parsing symbolic text: invalid syntax"}
+}
+
+func (i *interpreter) parseFloatModel(s, bits value) (value, value) {
+	if deepConcrete(s) {
+		v, err := strconv.ParseFloat(i.concString(s), int(i.concInt(bits)))
+		if err != nil {
+			return v, iface{errorType, err.Error()}
+		}
+		return v, iface{}
+	}
+	i.noteStub("number-text-model(parse float)")
+	w, ok := i.parseModel('f', s)
+	if w != nil && i.branch(ok) {
+		return i.mk(i.tb.FFromBits(w), types.Float64), iface{}
+	}
+	return 0.0, iface{errorType, "strconv.ParseFloat: parsing symbolic text: invalid syntax"}
 }
